@@ -1,10 +1,73 @@
 import Oracle.Util
 import MobiusModel.SessionOracle
+import MobiusModel.LoginHistory
+import MobiusModel.BanReload
 /-! Oracle handlers for C04: the Session / Scan / readFull / BanGate model on the line protocol
-    (argument parsing and printing live in MobiusModel/SessionOracle.lean). -/
+    (argument parsing and printing live in MobiusModel/SessionOracle.lean), the batched account
+    edit (LoginHistory) and the ban gate across reload steps (BanReload). -/
 namespace Oracle
 open Mobius
 
-def c04Handlers : List (String × Handler) := SessionOracle.handlers
+/-- `n (ty data)*` → the fields of one record and the remaining arguments. -/
+def parseRecFields : Nat → List String → List Field × List String
+  | 0, rest => ([], rest)
+  | n + 1, ty :: d :: rest => let r := parseRecFields n rest; (⟨num ty, hexb d⟩ :: r.1, r.2)
+  | _, rest => ([], rest)
+
+def parseRecs : Nat → List String → List (List Field) × List String
+  | 0, rest => ([], rest)
+  | n + 1, k :: rest =>
+    let (fs, rest1) := parseRecFields (num k) rest
+    let r := parseRecs n rest1
+    (fs :: r.1, r.2)
+  | _, rest => ([], rest)
+
+/-- `acctbatch nAcct (login hash)* nRecs (nFields (ty data)*)* login*`: the account table after one
+    TranUpdateUser holding the records, queried at the given logins.  Stored hashes use the oracle's
+    convention (`1 :: p` = bcrypt hash of `p`). -/
+def acctBatchOp : List String → String
+  | na :: rest =>
+    let (accts, rest1) := SessionOracle.parsePairs (num na) rest
+    match rest1 with
+    | nr :: rest2 =>
+      let (recs, qs) := parseRecs (num nr) rest2
+      let r := LoginHistory.applyBatch (fun p => 1 :: p) recs (LoginHistory.ofList accts)
+      s!"ack={if r.2 then 1 else 0}" ++ String.join (qs.map fun q =>
+        match r.1 (hexb q) with
+        | some h => s!" {q}={if h.isEmpty then "-" else toHex h}"
+        | none => s!" {q}=none")
+    | [] => "bad-op"
+  | _ => "bad-op"
+
+def parseEvents : Nat → List String → List BanReload.Ev
+  | 0, _ => []
+  | n + 1, "L" :: rest => .loadLock :: parseEvents n rest
+  | n + 1, "R" :: rest => .loadRead :: parseEvents n rest
+  | n + 1, "U" :: rest => .loadUnlock :: parseEvents n rest
+  | n + 1, "C" :: ip :: now :: rest => .check (hexb ip) (num now) :: parseEvents n rest
+  | n + 1, "A" :: ip :: k :: u :: rest => .add (hexb ip) (if k == "p" then none else some (num u)) :: parseEvents n rest
+  | n + 1, "E" :: nb :: rest =>
+    let (bans, rest1) := SessionOracle.parseBans (num nb) rest
+    .edit ⟨bans⟩ :: parseEvents n rest1
+  | _, _ => []
+
+/-- `banreload nBans (ip p|t until)* nEv ev*` (events: `L` `R` `U` = the three steps of Load, `C ip now` = a
+    connection reaches the ban check, `A ip p|t until` = BanFile.Add, `E nBans (ip p|t until)*` = the operator
+    replaces the file): the decisions of the checks in order, or `disabled` when the schedule asks for a step
+    the mutex does not allow. -/
+def banReloadOp : List String → String
+  | nb :: rest =>
+    let (bans, rest1) := SessionOracle.parseBans (num nb) rest
+    match rest1 with
+    | ne :: evs =>
+      match BanReload.run true ⟨⟨bans⟩, ⟨bans⟩, .idle⟩ (parseEvents (num ne) evs) with
+      | some (s, obs) =>
+        s!"ok obs={String.join (obs.map fun o => if o.refused then "1" else "0")} idle={if s.loader = .idle then 1 else 0}"
+      | none => "disabled"
+    | [] => "bad-op"
+  | _ => "bad-op"
+
+def c04Handlers : List (String × Handler) :=
+  SessionOracle.handlers ++ [("acctbatch", acctBatchOp), ("banreload", banReloadOp)]
 
 end Oracle
